@@ -49,6 +49,15 @@ fn same_key(a: &Node, b: &Node) -> bool {
     }
 }
 
+/// some mapping key is itself a mapping (or holds one) with a merge key inside
+fn merge_inside_key(n: &Node) -> bool {
+    match n {
+        Node::Map { entries, .. } => entries.iter().any(|(k, v)| docgen::has_merge_key(k) || merge_inside_key(k) || merge_inside_key(v)),
+        Node::Seq { items, .. } => items.iter().any(merge_inside_key),
+        _ => false,
+    }
+}
+
 fn is_merge(k: &Node) -> bool {
     matches!(k, Node::Scalar { text, sty: Sty::Plain, tag: None, .. } if text == "<<")
 }
@@ -256,8 +265,11 @@ pub fn run(ctx: &mut Ctx) {
             Ok(m) => {
                 ctx.count("merge_doc_valid");
                 let full = docgen::render_doc(&m);
+                // recorded finding F56: a mapping KEY that itself contains a merge key is fingerprinted as written, before
+                // its own merge is applied
+                let class = if merge_inside_key(&e) { "F56:merge-inside-complex-key" } else { "merge-not-equal-explicit" };
                 for pol in [P::Error, P::FirstWins, P::LastWins] {
-                    crate::props::c02::compare(ctx, "merge document vs fully merged rendering", "merge-not-equal-explicit", text, &full, pol);
+                    crate::props::c02::compare(ctx, "merge document vs fully merged rendering", class, text, &full, pol);
                 }
             }
             Err(()) => {
